@@ -351,11 +351,15 @@ Section Build.
               match get_http c1 i with
               | None => kerr d "resource not found"
               | Some h =>
-                match hi_responses h with
+                match rev (hi_responses h) with
                 | [] => kerr d "responses is empty"
-                | _ => COk (with_cat b (upd_http c1 i (fun h =>
+                | last :: _ =>
+                  match r_body last with
+                  | Some _ => kerr d "not a unique directive"
+                  | None => COk (with_cat b (upd_http c1 i (fun h =>
                          set_last_response h (fun r => {| r_code := r_code r; r_annot := r_annot r;
                                                           r_body := Some {| b_format := format_of n; b_schema := s |}; r_headers := r_headers r; r_dir := r_dir r |}))))
+                  end
                 end
               end
             end in
@@ -506,7 +510,8 @@ Section Build.
           let b2 := {| b_cat := b_cat b1; b_urls := p :: b_urls b1; b_similar := b_similar b1; b_protocols := b_protocols b1 |} in
           (* checkJsonRpcUrlChildCompatible *)
           let is_rpc (t : dtree) := kind_eqb (d_kind (tree_dir t)) KProtocol || kind_eqb (d_kind (tree_dir t)) KMethod in
-          match tree_kids t with
+          (* Tags children apply to HTTP and JSON-RPC methods alike: they are skipped *)
+          match filter (fun x => negb (kind_eqb (d_kind (tree_dir x)) KTags)) (tree_kids t) with
           | [] => COk b2
           | first :: rest =>
             match find (fun x => negb (Bool.eqb (is_rpc x) (is_rpc first))) rest with
